@@ -41,7 +41,7 @@ ASSUMPTIONS = ["the stores behave as sets of triples per graph (C01/C02); Datase
                "between literals of different kinds §17 comparisons are type errors; §17.3.1 lets an implementation "
                "return a value: the specification adopts rdflib's (= false, != true, boolean < integer < string)",
                "EXISTS patterns are limited to constructs for which §18.6 `substitute` is unambiguous "
-               "(triples, groups, UNION, OPTIONAL, FILTER, GRAPH)",
+               "(triples, groups, UNION, a top-level FILTER, GRAPH)",
                "initBindings = {} (C15 covers initial bindings)"]
 TRUSTED = ["harness/sparqlgen.py (generator, SPARQL printer, s-expression encoders incl. the reader of rdflib's algebra "
            "tree, Python reference evaluator)", "lean/RV/C04/Drive.lean (s-expression parser, printer)",
